@@ -97,6 +97,8 @@ class BeamFresh:
 
     def gen_op(self, rng, frng):
         w = {"beam_param": 4, "dirichlet": 3 if self._anchored() else 8, "neumann": 2.5, "connection": 3 if not self._connected() else 0.0, "bc_init": 0.3, "remesh": 0.8,
+             # listed finding beam-usetimoshenko-written-after-construction: not generated while it is open
+             "theory": 0.0 if self.ctx.avoids("beam-usetimoshenko-written-after-construction") else 0.6,
              "solve": 5 if (self._anchored() and self._connected()) else 0, "kcmf": 3, "result": 1.5 if self.solved else 0, "save_iter": 1, "set_iter": 0.7 if self.iters else 0}
         names = sorted(w)
         p = np.array([w[k] for k in names], dtype=float)
@@ -120,6 +122,8 @@ class BeamFresh:
             op["kind"] = ["fixed", "fixed", "hinged"][int(rng.integers(3))]
         elif name == "remesh":
             op["elemType"] = ["SEG2", "SEG3"][int(rng.integers(2))]
+        elif name == "theory":
+            op["timoshenko"] = bool(rng.integers(2))
         elif name == "result":
             op["name"] = ["displacement", "ux", "uy", "rz"][int(rng.integers(4))]
         elif name == "set_iter":
@@ -206,6 +210,13 @@ class BeamFresh:
             self.bcs = []
             self.d_points = set()
             self.hinged = False
+            return "ok"
+        if name == "theory":
+            # the public parameter of the simulation that selects the beam theory, written on the live object
+            with ctx.sut():
+                sim.useTimoshenko = op["timoshenko"]
+            self.spec["timoshenko"] = op["timoshenko"]
+            ctx.probe("beam_theory_written")
             return "ok"
         if name == "remesh":
             # the frame is meshed again and the new mesh (as the mesher returns it) replaces the old one
